@@ -61,16 +61,16 @@ B('f_c13_call_alias_bypasses_stack', ['C13'], 'R13.a',
       '        entry = type(self)._dispatch_wsgi\n        return entry(self, environ, start_response)\n'))
 
 # ---- C13 / R13.b ------------------------------------------------------------------------------------------------------
-_LOOP = ('        all_mws = _get_all_middlewares(self.routes)\n'
+_LOOP = ('        all_mws = _get_all_middlewares(self.routes, self.middlewares)\n'
          '        for mw in reversed(all_mws):\n'
          "            self._dispatch_wsgi = _safe_wrap_wsgi('middleware', mw, self._dispatch_wsgi)\n"
          '        return\n')
 T('f_c13_slice_reversal_named_temp', ['C13'],
-  (A, _LOOP, '        for mw in _get_all_middlewares(self.routes)[::-1]:\n'
+  (A, _LOOP, '        for mw in _get_all_middlewares(self.routes, self.middlewares)[::-1]:\n'
              "            wrapped = _safe_wrap_wsgi(source_name='middleware', source=mw, inner=self._dispatch_wsgi)\n"
              '            self._dispatch_wsgi = wrapped\n        return\n'))
 T('f_c13_wrap_loop_public_method', ['C13'],
-  (A, _LOOP, '        self.wrap_stack(_get_all_middlewares(self.routes))\n        return\n\n'
+  (A, _LOOP, '        self.wrap_stack(_get_all_middlewares(self.routes, self.middlewares))\n        return\n\n'
              '    def wrap_stack(self, mws):\n        for mw in mws[::-1]:\n'
              "            self._dispatch_wsgi = _safe_wrap_wsgi('middleware', mw, self._dispatch_wsgi)\n"))
 B('f_c13_slice_not_reversed', ['C13'], 'R13.b',
